@@ -13,6 +13,7 @@ mod c06;
 mod c07;
 mod c19;
 mod c19_consts;
+mod c20;
 mod mapper;
 mod physmem;
 mod c08;
@@ -23,6 +24,7 @@ mod c11;
 mod c16;
 mod c17;
 mod c18;
+mod softmmu;
 
 use gen::Rng;
 use out::Out;
@@ -87,6 +89,7 @@ fn main() {
         "C06" => c06::run(&mut out, &mut rng, tier),
         "C07" => c07::run(&mut out, &mut rng, tier),
         "C19" => c19::run(&mut out, &mut rng, tier),
+        "C20" => c20::run(&mut out, &mut rng, tier),
         "C01" | "C02" | "C09" | "C10" | "MAPPER" => {
             let mask = match prop.as_str() {
                 "C01" => 1 | 16,
